@@ -2,6 +2,7 @@ package c06
 
 import (
 	"encoding/hex"
+	"errors"
 	"fmt"
 	"math/rand/v2"
 	"sync"
@@ -172,10 +173,12 @@ func (e *env) overlapUDP(b *tbench.Bench, si int, label string) {
 			}
 		}
 
+		// One deadline for the whole round.
+		deadline := time.Now().Add(e.wait("udp"))
+		wantAll, gotAll := 0, 0
 		for c, s := range socks {
 			want := countMust(msgs[c])
 			got := 0
-			deadline := time.Now().Add(e.answerWait)
 			for got < want && time.Now().Before(deadline) {
 				dg, err := s.Recv(time.Until(deadline))
 				if err != nil {
@@ -202,7 +205,17 @@ func (e *env) overlapUDP(b *tbench.Bench, si int, label string) {
 				e.r.Bucket("overlap_udp_unanswered", int64(want-got))
 			}
 
+			wantAll += want
+			gotAll += min(got, want)
 			_ = s.Close()
+		}
+
+		if gotAll < wantAll {
+			// Loss in a burst of this size on the loopback interface is not
+			// expected from a healthy listener; if it keeps happening the
+			// path is driven with short waits (and the run is inconclusive
+			// unless a violation explains it).
+			e.missed("udp")
 		}
 	}
 }
@@ -258,7 +271,7 @@ func (e *env) overlapStream(b *tbench.Bench, si int, label string, tls bool) {
 
 				want := countMust(msgs)
 				for got := 0; ; got++ {
-					wait := e.answerWait
+					wait := e.wait(path)
 					if got >= want {
 						wait = e.graceWait
 					}
@@ -267,6 +280,9 @@ func (e *env) overlapStream(b *tbench.Bench, si int, label string, tls bool) {
 					if rErr != nil {
 						if got < want {
 							e.r.Bucket("overlap_"+path+"_unanswered", int64(want-got))
+							if errors.Is(rErr, tbench.ErrTimeout) {
+								e.missed(path)
+							}
 						}
 
 						return
@@ -311,7 +327,7 @@ func (e *env) overlapDoQ(b *tbench.Bench, si int, label string) {
 					defer wg.Done()
 					defer cwg.Done()
 
-					res := qc.Exchange(m.wire, e.answerWait)
+					res := qc.Exchange(m.wire, e.wait("doq"))
 					for _, raw := range res.Responses {
 						// Each stream carries one message: the response
 						// must answer exactly that one.
@@ -351,7 +367,7 @@ func (e *env) overlapDoH(b *tbench.Bench, si int, label string) {
 			go func() {
 				defer wg.Done()
 
-				res := hc.Post(m.wire, e.answerWait)
+				res := hc.Post(m.wire, e.wait("doh-post"))
 				for _, raw := range res.Responses {
 					e.judgeOverlap("doh-post", label, []*ovMsg{m}, raw, round)
 				}
